@@ -141,35 +141,25 @@ Proof. exact tls_off_disables. Qed.
 Print Assumptions C06_tls_off_disables.
 
 (* ---- TLS and plaintext sites on one listener are rejected ----
-   For every list of site configs (none nil): if two of them disagree on Enabled, MakeTLSConfig
-   returns an error (adjacent comparison implies the global one). *)
-Theorem C06_mixing_rejected_partial :
-  forall dc bad cs,
-  (forall o, In o cs -> o <> None) ->
-  (exists c1 c2, In (Some c1) cs /\ In (Some c2) cs /\ enabled c1 <> enabled c2) ->
-  exists e, make_tls_config dc bad cs = MkErr e.
+   For EVERY list of site configs — a nil entry standing for a site without TLS, wherever it
+   stands in the list: if one entry has TLS enabled and another has not, MakeTLSConfig returns
+   an error (the adjacent-pair comparison implies the global one). *)
+Theorem C06_mixing_rejected :
+  forall dc bad cs, mixed cs = true -> exists e, make_tls_config dc bad cs = MkErr e.
 Proof. exact mixing_rejected. Qed.
-Print Assumptions C06_mixing_rejected_partial.
+Print Assumptions C06_mixing_rejected.
 
 Example C06_mixing_rejected_nonvacuous :
   make_tls_config (default_ciphers true) []
     [Some (mkT (bs "a.com"%string) true TLS12 TLS13 [] [] [] true 0 [] false);
      Some (mkT (bs "c.com"%string) true TLS12 TLS13 [] [] [] true 0 [] false);
-     Some (empty_cfg (bs "b.com"%string))] = MkErr 1.
-Proof. vm_compute. reflexivity. Qed.
-
-(* with a nil entry (which MakeTLSConfig turns into a plaintext placeholder) the claim fails:
-   TLS config followed by nil is accepted *)
-Theorem C06_mixing_rejected_refuted :
-  exists dc bad cs g c, In (Some c) cs /\ enabled c = true /\ In None cs /\
-                        make_tls_config dc bad cs = MkGroup g.
-Proof.
-  exists (default_ciphers true), [],
-    [Some (mkT (bs "a.com"%string) true TLS12 TLS13 [] [] [] true 0 [] false); None].
-  eexists. eexists. split; [left; reflexivity|]. split; [reflexivity|]. split; [right; left; reflexivity|].
-  vm_compute. reflexivity.
-Qed.
-Print Assumptions C06_mixing_rejected_refuted.
+     Some (empty_cfg (bs "b.com"%string))] = MkErr 1 /\
+  (* a nil entry after a TLS config, and before one *)
+  make_tls_config (default_ciphers true) []
+    [Some (mkT (bs "a.com"%string) true TLS12 TLS13 [] [] [] true 0 [] false); None] = MkErr 1 /\
+  make_tls_config (default_ciphers true) []
+    [None; Some (mkT (bs "a.com"%string) true TLS12 TLS13 [] [] [] true 0 [] false)] = MkErr 1.
+Proof. vm_compute. repeat split; reflexivity. Qed.
 
 (* the "cannot multiplex" error is raised only for a real TLS / not-TLS mix *)
 Theorem C06_mix_error_only_for_mixed_sets :
@@ -177,11 +167,11 @@ Theorem C06_mix_error_only_for_mixed_sets :
 Proof. exact mix_error_sound. Qed.
 Print Assumptions C06_mix_error_only_for_mixed_sets.
 
-(* a returned group means every site has TLS enabled *)
+(* a returned group means every entry is a config with TLS enabled (no nil entry) *)
 Theorem C06_group_means_all_tls :
   forall dc bad cs g,
-  (forall o, In o cs -> o <> None) -> make_tls_config dc bad cs = MkGroup g ->
-  forall c, In (Some c) cs -> enabled c = true.
+  make_tls_config dc bad cs = MkGroup g ->
+  (forall o, In o cs -> o <> None) /\ forall c, In (Some c) cs -> enabled c = true.
 Proof. exact group_all_enabled. Qed.
 Print Assumptions C06_group_means_all_tls.
 
